@@ -319,3 +319,49 @@ theorem serializeCompressed_parse (b : List UInt8) (q : Point) (hl : b.length = 
     · exact absurd ⟨h2, h3⟩ hf
 
 end BV.C11.Parsers
+
+namespace BV.C11.Parsers
+open BV.Secp256k1 BV.C11 BV.C11.Bytes BV.C11.Der
+
+theorem fsqrt_sq (a y : Nat) (h : fsqrt a = some y) : y * y % p = a % p := by
+  unfold fsqrt at h
+  simp only [] at h
+  generalize powMod p a ((p + 1) / 4) = r at h
+  split at h
+  · rename_i hc
+    have hy : r = y := Option.some.inj h
+    rw [← hy]; exact hc
+  · cases h
+
+/-- accepted x-only (BIP340) keys: exactly 32 bytes, x < p, x³ + 7 is a square, and the result is the
+    lift (x, y) with y² = x³ + 7 — y being the root or its negation, whichever is even. -/
+theorem parseXOnly_spec (b : List UInt8) (q : Point) (h : parseXOnly b = some q) :
+    b.length = 32 ∧ fromBE b < p ∧ ∃ y0, y0 < p ∧ y0 * y0 % p = (fromBE b * fromBE b % p * fromBE b + curveB) % p ∧
+      q = .aff (fromBE b) (if y0 % 2 = 0 then y0 else p - y0) := by
+  unfold parseXOnly at h
+  split at h
+  · cases h
+  rename_i hl
+  have hl : b.length = 32 := by simpa using hl
+  unfold parsePubKey at h
+  have h65 : ¬ (((0x02 : UInt8) :: b).length = 65) := by simp [hl]
+  have h33 : ((0x02 : UInt8) :: b).length = 33 := by simp [hl]
+  simp only [] at h
+  rw [if_neg h65, if_pos h33] at h
+  have hf : ¬ ((0x02 : UInt8) ≠ 0x02 ∧ (0x02 : UInt8) ≠ 0x03) := by decide
+  rw [if_neg hf] at h
+  obtain ⟨hx, y0, hy, hq⟩ := decompress_spec _ _ _ h
+  refine ⟨hl, hx, y0, fsqrt_lt _ _ hy, ?_, ?_⟩
+  · have := fsqrt_sq _ _ hy
+    rw [this, Nat.mod_mod]
+  · rw [hq]
+    have h23 : decide ((0x02 : UInt8) = 0x03) = false := by decide
+    rw [h23]
+    refine congrArg (Point.aff (fromBE b)) ?_
+    by_cases hp : y0 % 2 = 0
+    · have : ¬ (y0 % 2 = 1) := by omega
+      simp [hp]
+    · have : y0 % 2 = 1 := by omega
+      simp [this]
+
+end BV.C11.Parsers
